@@ -2,6 +2,7 @@ SPECIFICATION MCSpec
 CONSTANTS
   Runs = {"A"}
   Mode = "mc"
+  Faithful = {"F8"}
   Tabs <- MCTabs
   MaxVal = 4
   MaxRho = 3
@@ -12,6 +13,7 @@ CONSTANTS
 CONSTRAINT Bound
 CHECK_DEADLOCK FALSE
 INVARIANT TypeOK
+INVARIANT NoViolation
 INVARIANT C02_IterBound
 INVARIANT C02_IterLimitIff
 INVARIANT C02_TimeLimitAfterDeadline
